@@ -3,7 +3,8 @@ from checks import screenfam
 
 
 def run(ctx):
-    screenfam.run_screen(ctx, "C13", mix="draw", per_term=(4, 40))
-    ctx.finish("exploration",
+    q = ctx.tier == "quick"
+    screenfam.run_screen(ctx, "C13", mix="draw", per_term=(4, 40), model=(1, 3, 3, 12) if q else (4, 4, 3, 1))
+    ctx.finish("model_checking",
                rule="the C01 histories (which re-store identical content and lock/unlock random regions); per Show the cells "
                     "stamped by the reference terminal are compared with the allowed set computed from the logged calls")
